@@ -412,6 +412,32 @@ def check(run: Run, prog: Program, model: Model, tier: str) -> None:
                 if name is not None and _is_private_rng(prog, ss, base):
                     seeded = name
     if seeded is None:
+        # not visible as a direct call: evaluate set_seed and look for the call it makes (through a helper, getattr, ...)
+        from ..engine import Interp
+        from ..values import Sym as _Sym
+        it_ = Interp(prog, model, unroll=1)
+        seed_sym = _Sym("seed", None, ("param", "seed"))
+
+        def run_s(i: Any) -> Any:
+            inst = i._construct(rnd, [], {}, None)
+            return i.call_function(ss, [seed_sym], {}, self_val=inst)
+        try:
+            ps_ = it_.run_paths(run_s)
+        except Exception:
+            ps_ = []
+        rets_ = [p_ for p_ in ps_ if p_.outcome == "return"]
+        def _module_seed(e_: Any) -> bool:
+            if not (e_.kind == "call" and e_.data.get("callee") == "random.seed" and e_.data.get("args")
+                    and e_.data["args"][0].key() == "seed"):
+                return False
+            fn_ = getattr(e_.node, "func", None)
+            if isinstance(fn_, ast.Attribute):
+                # `<x>.seed(arg)`: only the module itself counts (a generator OBJECT has a seed method of the same name)
+                return dotted(prog, ss.module, fn_, function_local_imports(ss.node)) == "random.seed"
+            return True
+        if rets_ and all(any(_module_seed(e_) for e_ in p_.events) for p_ in rets_):
+            seeded = "module"
+    if seeded is None:
         run.violated("SET-SEED", "Random.set_seed", ss.loc,
                      "set_seed does not seed a generator with its argument (neither random.seed(arg) nor <private Random>.seed(arg))",
                      witness="Random().set_seed(1); a = fake(schema.int); Random().set_seed(1); b = fake(schema.int); a != b")
